@@ -819,10 +819,16 @@ func findSegmentData(segs []*MediaSegment, refTrak *TrakBox, trex *TrexBox) ([]s
 		dur := uint32(0)
 		var baseTime uint64
 		for fIdx, frag := range seg.Fragments {
+			if frag.Moof == nil {
+				return nil, fmt.Errorf("fragment without moof box")
+			}
 			for _, traf := range frag.Moof.Trafs {
 				tfhd := traf.Tfhd
+				if tfhd == nil {
+					return nil, fmt.Errorf("traf box without tfhd box")
+				}
 				if tfhd.TrackID == refTrak.Tkhd.TrackID { // Find track that gives sidx time values
-					if fIdx == 0 {
+					if fIdx == 0 && traf.Tfdt != nil {
 						baseTime = traf.Tfdt.BaseMediaDecodeTime()
 					}
 					for i, trun := range traf.Truns {
